@@ -179,9 +179,12 @@ def run(M, rep, tier, only=None):
                   technique="decision table / dependency")
     R6 = rep.rule("C09.R6", "sanitizer replace chain is idempotent", floor=1,
                   technique="rewrite system extracted from the AST, exhaustive strings over its alphabet up to length 5")
+    R7 = rep.rule("C09.R7", "unit functions are pure: no module-level state is written", floor=5,
+                  technique="stores to module-level names in every function of the units module (AST def-use)")
     if um is None:
         rep.bad(R1, "nixio.util.units", "required mechanism not found: module")
         return
+    impure_functions(M, um, rep, R7)
     cfg = Config(M)
     cfg.compose = False
     factors = fold_const(M, UNITS_MOD, "PREFIX_FACTORS")
@@ -374,6 +377,152 @@ def run(M, rep, tier, only=None):
                 detail="rewrite system %s" % rules)
         else:
             rep.ok(R6, "sanitizer", "%d strings over %s" % (n, alpha))
+
+
+MUTATING_METHODS = {"append", "extend", "insert", "pop", "remove", "clear", "update", "setdefault", "popitem", "add",
+                    "discard", "sort", "reverse", "__setitem__", "__delitem__"}
+
+
+TOKENS = {}
+
+
+def covered(vd, kd, deps):
+    """is every source the value depends on determined by the key"""
+    kparams = {k for k in kd if k not in TOKENS}
+    for t in vd:
+        if t in kd:
+            continue
+        if t in TOKENS:
+            base = set()
+            for n in TOKENS[t]:
+                base |= deps.get(n, set())
+            if base and covered(base, kparams, deps):
+                continue
+        return False
+    return True
+
+
+def local_deps(fnode):
+    """flow-insensitive def-use closure: local name -> set of parameters it may depend on (data and control)"""
+    import ast
+    params = {a.arg for a in fnode.args.args + fnode.args.kwonlyargs}
+    direct = {}
+
+    def visit(stmts, ctrl):
+        for st in stmts:
+            if isinstance(st, (ast.Assign, ast.AugAssign, ast.AnnAssign)):
+                val = st.value
+                tg = st.targets if isinstance(st, ast.Assign) else [st.target]
+                names = {x.id for x in ast.walk(val) if isinstance(x, ast.Name)} if val is not None else set()
+                if isinstance(st, ast.AugAssign):
+                    names |= {x.id for x in ast.walk(st.target) if isinstance(x, ast.Name)}
+                for t in tg:
+                    if isinstance(t, (ast.Tuple, ast.List)) and isinstance(st, ast.Assign):
+                        # components of an unpacked result are distinct sources (each determined by `names`)
+                        for i, x in enumerate(t.elts):
+                            if isinstance(x, ast.Name):
+                                tok = "%s#%d@%d" % (x.id, i, st.lineno)
+                                TOKENS[tok] = names | ctrl
+                                direct.setdefault(x.id, set()).add(tok)
+                        continue
+                    for x in ast.walk(t):
+                        if isinstance(x, ast.Name) and isinstance(x.ctx, ast.Store):
+                            direct.setdefault(x.id, set()).update(names | ctrl)
+            elif isinstance(st, (ast.If, ast.While)):
+                c = ctrl | {x.id for x in ast.walk(st.test) if isinstance(x, ast.Name)}
+                visit(st.body, c)
+                visit(st.orelse, c)
+            elif isinstance(st, ast.For):
+                c = ctrl | {x.id for x in ast.walk(st.iter) if isinstance(x, ast.Name)}
+                for x in ast.walk(st.target):
+                    if isinstance(x, ast.Name):
+                        direct.setdefault(x.id, set()).update(c)
+                visit(st.body, c)
+                visit(st.orelse, c)
+            elif isinstance(st, ast.Try):
+                visit(st.body, ctrl)
+                for h in st.handlers:
+                    visit(h.body, ctrl)
+                visit(st.orelse, ctrl)
+                visit(st.finalbody, ctrl)
+            elif isinstance(st, ast.With):
+                visit(st.body, ctrl)
+    TOKENS.clear()
+    visit(fnode.body, set())
+    out = {p: {p} for p in params}
+    for tok in TOKENS:
+        out[tok] = {tok}
+    changed = True
+    while changed:
+        changed = False
+        for v, ns in direct.items():
+            cur = out.setdefault(v, set())
+            new = set()
+            for n in ns:
+                new |= out.get(n, set())
+            if not new <= cur:
+                cur |= new
+                changed = True
+    return out
+
+
+def expr_deps(e, deps):
+    import ast
+    out = set()
+    for x in ast.walk(e):
+        if isinstance(x, ast.Name):
+            out |= deps.get(x.id, set())
+    return out
+
+
+def impure_functions(M, um, rep, R7):
+    """a conversion that remembers anything between calls can make the factor depend on the call history (results must
+    depend on the arguments only: conversions compose and invert)"""
+    import ast
+    modnames = set(um.assigns) | set(um.imports)
+    for fname, f in sorted(um.funcs.items()):
+        local = {a.arg for a in f.node.args.args + f.node.args.kwonlyargs}
+        for n in ast.walk(f.node):
+            if isinstance(n, ast.Name) and isinstance(n.ctx, ast.Store):
+                local.add(n.id)
+        glob = set()
+        for n in ast.walk(f.node):
+            if isinstance(n, (ast.Global, ast.Nonlocal)):
+                glob |= set(n.names)
+        local -= glob
+        bad = None
+        deps = local_deps(f.node)
+        for n in ast.walk(f.node):
+            tgt = None
+            if isinstance(n, ast.Assign) and len(n.targets) == 1 and isinstance(n.targets[0], ast.Subscript):
+                # an explicit memo table is harmless iff its key determines everything the stored value depends on
+                t0 = n.targets[0]
+                root = t0.value
+                while isinstance(root, (ast.Subscript, ast.Attribute)):
+                    root = root.value
+                if isinstance(root, ast.Name) and root.id not in local and root.id in modnames:
+                    kd = expr_deps(t0.slice, deps)
+                    vd = expr_deps(n.value, deps)
+                    if not covered(vd, kd, deps):
+                        bad = (n, "%s: the stored value depends on %s, the key only on %s" % (
+                            root.id, sorted(x.split("@")[0] for x in vd - kd), sorted(x.split("@")[0] for x in kd)))
+                    continue
+            if isinstance(n, ast.Subscript) and isinstance(n.ctx, ast.Store) and any(
+                    isinstance(a, ast.Assign) and len(a.targets) == 1 and a.targets[0] is n for a in ast.walk(f.node)):
+                continue
+            if isinstance(n, (ast.Subscript, ast.Attribute)) and isinstance(n.ctx, (ast.Store, ast.Del)):
+                tgt = n.value
+            elif isinstance(n, ast.Call) and isinstance(n.func, ast.Attribute) and n.func.attr in MUTATING_METHODS:
+                tgt = n.func.value
+            elif isinstance(n, ast.Name) and isinstance(n.ctx, ast.Store) and n.id in glob:
+                bad = (n, n.id)
+            if tgt is not None:
+                while isinstance(tgt, (ast.Subscript, ast.Attribute)):
+                    tgt = tgt.value
+                if isinstance(tgt, ast.Name) and tgt.id not in local and tgt.id in modnames:
+                    bad = (n, tgt.id)
+        rep.check(R7, fname, bad is None, "%s writes module-level state (%s): the result of a unit operation can depend on "
+                  "earlier calls" % (fname, bad[1] if bad else ""), site="%s:%d" % (um.relpath, bad[0].lineno if bad else 0))
 
 
 def pattern_role(pat):
